@@ -193,3 +193,25 @@ p = PROPS["C19"]
 if "RrProofs.Pins" not in p["modules"]:
     p["modules"] += ["RrProofs.Pins"]
 p["theorems"] += [T("Pins.readMappingShape", "pin", "readMapping: the whole response body (status 200) or the whole file is returned; no limit, cut or transformation")]
+
+# ---- full_statement_status, brought up to date after the repairs and the round-2 slices ----
+PROPS["C03"]["full_statement_status"] = ("header clauses: proved at function level (Props.C03.holds_model and the per-clause theorems); method/body clauses over contact traces: "
+    "proved at FULL strength on the executor model (Props.C03Exec.holds_model: every answered contact - proxy, copy, repeat, fallback through a retry chain of any depth - "
+    "received the client's method and complete body) after the fix: commit for C03-a; kf.C03-a runs as a regression stream")
+PROPS["C04"]["full_statement_status"] = ("proved at function level (Props.C04.holds_model, Props.C04.holds_ensure); at system level the per-contact oracle of stream sysu "
+    "(external destinations see none of the three headers; internal ones the first configured secret unless the client sent a valid one, a request id, the originating IP; "
+    "an unknown secret is answered 407 without any contact) is applied to every contact of every request; refuted there by finding C04-a (only the first "
+    "Richie-Routing-Secret line is validated)")
+PROPS["C05"]["full_statement_status"] = ("uncached path proved on the executor model (Props.C05.mirror_plain, route_outcome, self_errors_wellformed) and on the recompression path "
+    "(Props.C05Recompress.content_length_only_with_the_origins_bytes); cached paths: history oracles of stream sysc on the implementation (fills mirror the current origin answer, "
+    "hits replay the stored one, 304 revalidations keep the body, nobody is left without a response); refuted by C05-a (no body outside the status gate), C05-c (ServeMux 301), "
+    "C05-d (self-made 500 under the origin's headers), and by the faces of C09-b and C09-e seen from the client")
+PROPS["C07"]["full_statement_status"] = ("refuted for the code: C07-a (metadata codec not faithful; Props.C07.Statement_false, proved on the complement: codec_roundtrip_partial for all "
+    "representable metadata) and C07-b (the filling request streams its body from the re-opened path after releasing the key: Props.C07Sched.NoTornStatement_false; "
+    "proved without entry expiry and stale release: no_torn_partial); hits are one stored response (descriptor-based read pinned, stream concrefresh)")
+PROPS["C08"]["full_statement_status"] += "; at system level also refuted by the face of C09-e (a bodiless 5xx answer to a revalidation re-publishes the expired entry)"
+PROPS["C09"]["full_statement_status"] += "; coalesced clients (stream condpair): refuted by C09-f (the waiter is answered by the writer's validator)"
+PROPS["C11"]["full_statement_status"] = ("refuted on the current tree (Props.C11.Statement_false, keyString_injective_false): findings C11-a, C11-b, C11-c at function level, C11-d at "
+    "system level (lock table keyed by entry name across storages; Props.C11SysCompose.briefStatement_false); partial forms proved for all inputs outside the classes, and "
+    "composed with the system model (lookup order, lock key, delivered key, ChangeKey, woken waiters: Props.C11Sys.holds_model, Props.C11SysCompose.response_passes_oracle)")
+PROPS["C12"]["full_statement_status"] += "; 'every client served completely' also refuted by C07-b (torn response of the filling request) with proved partial (Props.C07Sched.no_torn_partial)"
